@@ -116,6 +116,8 @@ impl UpdateTrailingTrivia for TokenReference {
         && (t is Append ==> tr_trail(*r) == tr_trail(*self) + t->Append_0@)
         // appending trivia without a line comment among them does not open a token that was closed
         && (t is Append && (forall|i: int| 0 <= i < t->Append_0@.len() ==> !is_line_comment_tok(#[trigger] t->Append_0@[i])) ==> (tok_open(*r) ==> tok_open(*self)))
+        // ... nor does it change whether a single line comment stands behind the token
+        && (t is Append && (forall|i: int| 0 <= i < t->Append_0@.len() ==> !is_line_comment_tok(#[trigger] t->Append_0@[i])) ==> tok_has_single_comment(*r) == tok_has_single_comment(*self))
     }
     open spec fn not_open(&self) -> bool { !tok_open(*self) }
     #[verifier::external_body] fn update_trailing_trivia(&self, trailing_trivia: FormatTriviaType) -> (r: Self) { unimplemented!() }
@@ -232,9 +234,12 @@ impl GetLeadingTrivia for TokenReference {
     #[verifier::external_body] fn has_leading_comments(&self, search: CommentSearch) -> (r: bool) { unimplemented!() }
     #[verifier::external_body] fn leading_comments(&self) -> Vec<Token> { unimplemented!() }
 }
+// has_trailing_comments(Single) on a token: is there a single line comment in its trailing trivia (a name for the answer, so that two
+// questions about the same token agree)
+pub uninterp spec fn tok_has_single_comment(t: TokenReference) -> bool;
 impl GetTrailingTrivia for TokenReference {
     open spec fn ends_open(&self) -> bool { tok_open(*self) }
     #[verifier::external_body] fn trailing_trivia(&self) -> Vec<Token> { unimplemented!() }
-    #[verifier::external_body] fn has_trailing_comments(&self, search: CommentSearch) -> (r: bool) { unimplemented!() }
+    #[verifier::external_body] fn has_trailing_comments(&self, search: CommentSearch) -> (r: bool) ensures search is Single ==> r == tok_has_single_comment(*self) { unimplemented!() }
     #[verifier::external_body] fn trailing_comments(&self) -> Vec<Token> { unimplemented!() }
 }
